@@ -21,6 +21,7 @@
 // tr opcodes:  0 Schedule(arg=1: task panics), 1 ScheduleImmediately, 2 Wait
 // pl opcodes:  0 Get, 1 Put (most recently obtained resource), 2 advance clock by arg ns, 3 Put(nil),
 //              4 Get whose create(), if it is called, panics (result -2)
+//              5 Get during which the first call of destroy() panics, after the resource is gone (result -2)
 // probe:       obj pool: Pool(1), the first create() panics; R = 1 if the next Get succeeds, 0 if it blocks
 // wp objs:     mr (ForEach) mrdef (ForEach, default workers) mrmr (MapReduce) mrvoid (MapReduceVoid)
 //              mrchan (MapReduceChan) finish (Finish) finishvoid (FinishVoid)
@@ -709,6 +710,7 @@ func runPL(c Case, ctl *sched.Ctl, mon *monitor, wg *sync.WaitGroup) {
 		var live int32
 		val := newValuer(c.VP)
 		createdNow := make([]int64, len(c.Scripts)) // per thread: 1 + id created by its current Get, 0 = none
+		panicDestroy := make([]int32, len(c.Scripts)) // per thread: the next destroy() called for its current Get panics
 		inUse := map[int64]*int32{}
 		var imu sync.Mutex
 		flag := func(x int64) *int32 {
@@ -758,6 +760,9 @@ func runPL(c Case, ctl *sched.Ctl, mon *monitor, wg *sync.WaitGroup) {
 				a = 0
 			}
 			ctl.Log(a, "destroy", ctl.CurOp(a), id)
+			if a < len(panicDestroy) && atomic.CompareAndSwapInt32(&panicDestroy[a], 1, 0) {
+				panic("destroy failed") // opcode 5: the resource is gone (counted as destroyed), the callback panics
+			}
 		}
 		// which creation a Get handed out: read off the value, or (indistinguishable values) the one
 		// just created by this very Get, else the top of the shadow stack
@@ -838,11 +843,15 @@ func runPL(c Case, ctl *sched.Ctl, mon *monitor, wg *sync.WaitGroup) {
 						}
 					case 3:
 						pool.Put(nil)
-					case 4:
+					case 4, 5:
 						if c.Free && len(held) > 0 {
 							break
 						}
-						atomic.StoreInt32(&panicCreate[tid], 1)
+						if op[0] == 5 {
+							atomic.StoreInt32(&panicDestroy[tid], 1)
+						} else {
+							atomic.StoreInt32(&panicCreate[tid], 1)
+						}
 						func() {
 							defer func() {
 								if p := recover(); p != nil {
@@ -857,6 +866,7 @@ func runPL(c Case, ctl *sched.Ctl, mon *monitor, wg *sync.WaitGroup) {
 							r = x.id
 						}()
 						atomic.StoreInt32(&panicCreate[tid], 0)
+						atomic.StoreInt32(&panicDestroy[tid], 0)
 					}
 					ctl.Log(tid, "ret", i, r)
 				}
